@@ -7,6 +7,7 @@
 import GM.Model.Table
 import GM.Spec.Table
 import GM.Proof.Table
+import GM.Props.Consts.Table
 
 namespace GM.Props.C17
 open GM GM.Table
@@ -150,5 +151,8 @@ example : (transform src1 lines1).table.map (renderSkeleton .style) = some
 -- escaped pipe inside a code span is recorded, the cell is not split: "`a\|b`|c" after a 2-column header
 example : (parseRow [96, 97, 92, 124, 98, 96, 124, 99] ⟨0, 8, 0⟩ [.none, .none] false) =
     [⟨.none, some ⟨0, 6, 0⟩, [2]⟩, ⟨.none, some ⟨7, 8, 0⟩, []⟩] := by decide +kernel
+
+/-- (package consts) the four delimiter-row regular expressions and the literals of extension/table.go are the table model's -/
+theorem consts_table_regexps_tied : GM.Spec.Consts.allOk GM.Spec.Consts.tableRegexps = true := GM.Props.Consts.Table.table_regexps_tied
 
 end GM.Props.C17
